@@ -37,6 +37,26 @@ OBLIGATIONS = [
      "statement": "all interleavings of schedule() with stop(): once stop() returned no entry of the racing schedule is linked (uses Gen: re-test under lock)"},
     {"id": "C08_W7_F32", "theorem": "Iora.C08.W7_without_retest_witness", "kind": "proved", "finding": "F32",
      "statement": "on record: without the re-test a schedule exists that leaves an accepted entry in the stopped wheel"},
+    # ---- c08w block (round 2, wheel) ----
+    {"id": "C08_W8a", "theorem": "Iora.C08.W8_deadline_never_wraps", "kind": "proved", "finding": "FC08c",
+     "statement": "for every clock value 0 <= now <= 2^63-1 ns and EVERY delay (milliseconds::max()/min() included) the deadline schedule/reschedule store lies in [epoch, TimePoint::max()] and deadline - now' is representable for every later clock value; it is now+delay whenever that is a representable time point >= epoch, else (delay too large) within the last millisecond before TimePoint::max() (replaces the assumption now+delay < 2^63)"},
+    {"id": "C08_W8b", "theorem": "Iora.C08.W8_request_not_early", "kind": "proved", "finding": "FC08c",
+     "statement": "if the W3 guard lets an entry scheduled at `now` with delay d >= 0 fire at now', then now' > min(now+d, TimePoint::max()) - tick - 1 ms: no overflow assumption"},
+    {"id": "C08_G_wheel_r2", "theorem": "Iora.C08.G_wheel_shapes_r2", "kind": "proved",
+     "statement": "Gen conformance: schedule's id is ONE `_nextId.fetch_add(1,..)` and only reset() writes `_nextId` otherwise; schedule/reschedule use the saturating deadlineAfter = now + clamp(delay, -behind, ahead) (deadline kept in [epoch, TimePoint::max()]); reset(): assert STOPPED, clearAllEntries, currentTick=0, lastAdvance unset, nextId=1, state RESET; clearAllEntries empties map and every bucket under the lock; start() leaves CREATED and RESET"},
+    {"id": "C08_G_kvgeom", "theorem": "Iora.C08.G_kv_wheel_geometry_valid", "kind": "proved",
+     "statement": "the KVStoreConfig default TTL-wheel geometry (Gen: kvWheelTickMs/Slots/Levels) satisfies the constructor preconditions Cfg.Valid used by W0_mask_is_mod"},
+    {"id": "C08_WR0", "theorem": "Iora.C08.WR0_reset_drops_nothing", "kind": "proved",
+     "statement": "every life (ops + reset()s): a STOPPED wheel holds no entry and does not accept, so reset() never drops a timer W1 has not accounted for; after reset(): nothing linked, tick counters 0, lastAdvance unset, next id 1, RESET, not accepting"},
+    {"id": "C08_WR1", "theorem": "Iora.C08.WR1_every_epoch", "kind": "proved",
+     "statement": "W1/W1' in the current epoch of every life with any number of stop/drain -> reset -> start cycles: conservation, ids distinct, nothing fired twice, fired => issued in this epoch and no longer pending"},
+    {"id": "C08_WR1w", "theorem": "Iora.C08.WR1_ids_restart_witness", "kind": "proved",
+     "statement": "on record: ids are NOT unique over the life of a wheel object: after stop, reset, start the first schedule returns id 1 again (reset stores _nextId = 1)"},
+    {"id": "C08_WR2", "theorem": "Iora.C08.WR2_false_means_gone_in_epoch", "kind": "proved",
+     "statement": "every life: cancel = false => the id was not issued in the current epoch or has left in it"},
+    {"id": "C08_WR3", "theorem": "Iora.C08.WR3_not_early_across_restarts", "kind": "proved",
+     "statement": "every life: an entry fired by advance() carries the deadline of the latest (re)schedule of its id IN THE CURRENT EPOCH and now >= deadline - tick: an id issued after a restart never fires on a deadline of an earlier epoch"},
+    # ---- end of c08w block ----
     {"id": "C08_G_service", "theorem": "Iora.C08.G_service_shapes", "kind": "proved",
      "statement": "Gen conformance: re-tests under _mutex, cancel/collect under _mutex, erase before hand-over, pre-announce under lock, drain restore under lock, stop() clears _accepting and publishes Stopped under lock (F23), periodic cancel guard (F41) closed by cancel() unconditionally (not only on the !entry.canceled transition); every section the model treats as atomic takes _mutex first and holds it over its accesses; handlers run outside _mutex; `_accepting = true` only inside the braces of the CAS Draining->Running"},
     {"id": "C08_S1", "theorem": "Iora.C08.S1_collected_exactly_once", "kind": "proved",
@@ -69,6 +89,37 @@ OBLIGATIONS = [
     {"id": "C08_S5b", "theorem": "Iora.C08.S5_no_due_record_left", "kind": "proved",
      "statement": "when collectDueLocked's loop leaves by break/empty heap no record with tp <= now remains (no silent loss)"},
     {"id": "C08_S6", "theorem": "Iora.C08.S6_refused", "kind": "proved", "statement": "schedule* on a non-accepting service returns 0 and stores nothing"},
+    {"id": "C08_S3p_refuted", "theorem": "Iora.C08.C08_S3p_refuted", "kind": "refuted", "finding": "FC08e (proposed)",
+     "statement": "at instruction granularity the periodic clause (C08_S3p_statement: once the loop thread has read the guard of a waiting periodic invocation as open, no cancel(id) answers true before fn() is entered) is FALSE: the guard load and the call of the user's handler are two instructions, cancel() can return true in between"},
+    {"id": "C08_S3p_partial", "theorem": "Iora.C08.C08_S3p_partial", "kind": "partial", "of": "Iora.C08.C08_S3p_statement",
+     "statement": "with guard read + handler call as ONE step: after cancel(id) = true no handler of the id starts in any continuation (= S3a)"},
+    {"id": "C08_S6c", "theorem": "Iora.C08.S6_concurrent", "kind": "proved",
+     "statement": "scheduleAt split into its lock-free test and its locked section: whatever steps other threads take in between, once stop() has returned the locked section stores nothing and answers 0"},
+    {"id": "C08_S6s", "theorem": "Iora.C08.S6_split", "kind": "proved", "statement": "the two halves back to back are scheduleAt"},
+    {"id": "C08_G_sys", "theorem": "Iora.C08.G_sys_shapes", "kind": "proved",
+     "statement": "Gen conformance (second layer): programTimerfd bumps a zero it_value to 1 ns; scheduleAt/schedulePeriodic/cancel/drain/stop poke() after their locked section; reset() clears _records, _periodicTimers, _heap and _nextId; stop() drains for 5000 ms"},
+    {"id": "C08_R1", "theorem": "Iora.C08.R_epoch_is_fresh_run", "kind": "proved",
+     "statement": "for every history with any number of stop -> reset -> start restarts: outside the Reset state, state and history of the current epoch are a run of the first-layer model from the constructor's state"},
+    {"id": "C08_R2", "theorem": "Iora.C08.R_transfer", "kind": "proved", "statement": "whatever holds of every first-layer run (S1-S6) holds of the current epoch of every history with restarts"},
+    {"id": "C08_R3", "theorem": "Iora.C08.R_S2_across_restarts", "kind": "proved",
+     "statement": "across restarts every collected invocation is due and tp = t0 + k*iv for the request made IN THE CURRENT EPOCH: an id issued after a restart never fires at a deadline of an earlier epoch"},
+    {"id": "C08_R4", "theorem": "Iora.C08.R_S1_S3_across_restarts", "kind": "proved", "statement": "S1 (exactly once) and S3a (cancel = true => never starts) in the current epoch of every history with restarts"},
+    {"id": "C08_R5", "theorem": "Iora.C08.R_reset_start_is_constructor_state", "kind": "proved",
+     "statement": "reset() then start() on a reachable Stopped service leaves exactly the constructor's state (uses Gen: what reset() clears)"},
+    {"id": "C08_R_C08d", "theorem": "Iora.C08.R_without_heap_clear_witness", "kind": "proved", "finding": "seeded C08-d",
+     "statement": "on record: a reset() that keeps _heap lets the new id 1 (due at 15 ms) be collected at the old item's 4 ms"},
+    {"id": "C08_WK1", "theorem": "Iora.C08.WK_parked_has_wakeup", "kind": "proved",
+     "statement": "for every history: while the loop thread sleeps in epoll_wait with a non-empty heap, the eventfd is readable, or a client still owes its poke(), or the timerfd is armed no later than the heap top (or 1 ns after the clock programTimerfd read: zero guard)"},
+    {"id": "C08_WK2", "theorem": "Iora.C08.WK_due_record_wakes", "kind": "proved",
+     "statement": "for every history: parked, no poke owed, a record with tp <= now, now later than the arming clock => epoll_wait returns (eventfd readable or timerfd expired): a due timer is never slept on"},
+    {"id": "C08_WK_A", "theorem": "Iora.C08.WK_without_zero_guard_witness", "kind": "proved", "finding": "hand mutant A (review 2)",
+     "statement": "on record: without the zero guard a due heap top programs it_value = 0, which disarms the timerfd"},
+    {"id": "C08_ST1", "theorem": "Iora.C08.ST_cancel_true_never_starts", "kind": "proved",
+     "statement": "SteadyTimer: after cancel() = true, for every continuation (service steps, re-arms, cancels of any SteadyTimer), the user's handler of that arm never starts"},
+    {"id": "C08_ST2", "theorem": "Iora.C08.ST_cancel_false_means_not_armed", "kind": "proved",
+     "statement": "SteadyTimer: cancel() = false => nothing is armed (no token), or the service-level cancel found no live record and the arm's shared state is Started (the handler ran or is running) or was already Canceled - never false-and-suppressed"},
+    {"id": "C08_ST_FC08b", "theorem": "Iora.C08.ST_legacy_cancel_witness", "kind": "proved", "finding": "FC08b",
+     "statement": "on record: the unrepaired cancel() (flag stored first, answer = the service-level answer) answers false for an arm whose record is collected but not started, and the handler never runs"},
 ]
 ANCHOR_FILES = ["include/iora/core/timing_wheel.hpp", "include/iora/core/timer.hpp"]
 NS = 1000000
@@ -93,11 +144,37 @@ GEOMETRIES = [(10, 8, 2), (1, 4, 3), (5, 16, 1), (20, 8, 2), (10, 64, 2), (1000,
 
 
 # ------------------------------------------------------------------ wheel case generation
-MAX_DELAY_MS = 8 * 10 ** 12     # now + delay must stay below 2^63 ns (292 years): stated assumption of the model
+MAX_DELAY_MS = 2 ** 63 - 1      # std::chrono::milliseconds::max(): the deadline saturates (FC08c), no overflow assumption left
+BASE_NS = 2592000000000000      # the harness's constant virtual epoch (kBaseNs, 30 days of uptime); op `base <ns>` moves it
+TP_MAX = 2 ** 63 - 1            # steady_clock::time_point::max() in ns
+YEAR_MS = 365 * 86400 * 1000
+
+
+def huge_delay(rng, now_abs=BASE_NS):
+    """boundary family around the end of the clock's range: milliseconds::max(), 2^63/10^6 ms +- 1 (the largest delay whose ns
+    conversion fits), the room that is left at `now_abs` +- 1 ms, 292/300 years, and the negative mirror images"""
+    room = (TP_MAX - now_abs) // NS
+    d = rng.choice([2 ** 63 - 1, 2 ** 63 - 2, TP_MAX // NS, TP_MAX // NS + 1, TP_MAX // NS - 1, room, room + 1, room - 1, room + rng.range(2, 10 ** 6),
+                    room - rng.range(2, 10 ** 6), 300 * YEAR_MS, 292 * YEAR_MS, 292 * YEAR_MS + 1, 292 * YEAR_MS - 1, 293 * YEAR_MS, 8 * 10 ** 12, 10 ** 13,
+                    rng.range(10 ** 12, 2 ** 63 - 1)])
+    if rng.chance(1, 6):
+        behind = now_abs // NS      # the span back to the clock's epoch: the lower clamp bound of the repaired deadline
+        return rng.choice([-d, -behind, -behind - 1, -behind + 1, -behind - rng.range(2, 10 ** 6)])
+    return d
 
 
 def delay_patterns(rng, tick, slots, levels):
+    if rng.chance(1, 30):
+        return huge_delay(rng)
     return min(delay_patterns0(rng, tick, slots, levels), MAX_DELAY_MS)
+
+
+def deadline_after(now_abs, delay_ms):
+    """reference for the REPAIRED deadline (FC08c), independent of model and code: now + delay kept between the clock's epoch and the end
+    of its range, at the millisecond granularity of std::clamp(delay, -behind, ahead)"""
+    ahead = (TP_MAX - now_abs) // NS
+    behind = now_abs // NS
+    return now_abs + max(-behind, min(delay_ms, ahead)) * NS
 
 
 def delay_patterns0(rng, tick, slots, levels):
@@ -239,6 +316,143 @@ def boundary_cases():
     return cs
 
 
+# ---- c08w block (round 2): restart epochs, concurrent schedulers, end-of-clock deadlines ---------------------------------------
+def kv_default_geometry():
+    """the KVStoreConfig default TTL-wheel geometry, from the regenerated Gen/Timer.lean (theorem G_kv_wheel_geometry_valid is about
+    the same values); None if the file does not carry them"""
+    import re
+    from vlib.core import LEAN
+    try:
+        txt = open(os.path.join(LEAN, "IoraModel", "Gen", "Timer.lean")).read()
+        g = [int(re.search(r"def %s : Nat := (\d+)" % n, txt).group(1)) for n in ("kvWheelTickMs", "kvWheelSlots", "kvWheelLevels")]
+    except (OSError, AttributeError):
+        return None
+    t, sl, lv = g
+    # what the harness's `reset` accepts (a default outside it fails G_kv_wheel_geometry_valid / is reported by the build)
+    return tuple(g) if t > 0 and sl > 0 and sl & (sl - 1) == 0 and sl <= 65536 and 0 < lv <= 8 else None
+
+
+def gen_wheel_restart_case(rng, idx):
+    """stop()/drain() -> reset() -> start() cycles: entries pending at the stop, ids restarting at 1 in the new epoch, deadlines of the
+    old epoch that come due in the new one, reset() refused on a wheel that is not STOPPED, advance() between reset() and start(),
+    tick counters that were mid-revolution at the stop; sprinkled with concurrent schedulers (`mtsched`) and end-of-clock delays"""
+    tick, slots, levels = rng.choice([g for g in GEOMETRIES if g[1] ** g[2] <= 5000] or GEOMETRIES)
+    ops = ["reset %d %d %d" % (tick, slots, levels)]
+    clk = 0
+    if rng.chance(1, 5):
+        b = rng.choice([1, NS, BASE_NS, TP_MAX - 10 ** 16, TP_MAX - 5 * 10 ** 15, 4 * 10 ** 18, rng.range(1, 4 * 10 ** 18)])
+        ops.append("base %d" % b)
+    else:
+        b = BASE_NS
+    if rng.chance(1, 6):
+        ops.append("wreset")            # CREATED: not-stopped
+    ops.append("start")
+    for ep in range(rng.range(1, 4)):
+        issued = 0
+        old = []
+        for _ in range(rng.range(2, 14)):
+            k = rng.below(100)
+            if k < 45:
+                d = huge_delay(rng, b + clk) if rng.chance(1, 8) else delay_patterns0(rng, tick, slots, levels)
+                ops.append("sched %d" % d)
+                issued += 1
+                old.append(d)
+            elif k < 75:
+                clk += tick * NS * rng.choice([1, 1, 1, 2, rng.range(1, 2 * slots)]) + rng.choice([0, 0, 1, NS // 2])
+                ops.append("adv %d" % clk)
+            elif k < 82 and issued:
+                ops.append("cancel %d" % rng.range(1, issued))
+            elif k < 90 and issued:
+                ops.append("resched %d %d" % (rng.range(1, issued), huge_delay(rng, b + clk) if rng.chance(1, 6) else delay_patterns0(rng, tick, slots, levels)))
+            elif k < 94:
+                ops.append("mtsched %d %d %d" % (rng.choice([2, 4, 4, 8]), rng.choice([50, 200, 1000]), rng.choice([0, tick, 5 * tick, 2 ** 63 - 1])))
+                issued = None           # ids continue after the threads' ids: stop picking ids by count
+                break
+            else:
+                ops.append("dump")
+        if rng.chance(1, 5):
+            ops.append("wreset")        # RUNNING: not-stopped, nothing may change
+            ops.append("dump")
+        ops.append(rng.choice(["stop", "stop", "drain 30000", "drain 0", "race %d" % rng.range(0, 20 * tick)]))
+        ops += ["pending", "sched %d" % rng.range(0, 3 * tick)]          # refused
+        if rng.chance(1, 4):
+            ops.append("start")         # STOPPED: start() does nothing
+            ops.append("sched 1")
+        ops.append("wreset")
+        ops.append("dump")
+        if rng.chance(1, 4):
+            ops.append("wreset")        # RESET: not-stopped
+        if rng.chance(1, 3):
+            ops.append("sched 5")       # RESET, not started yet: refused
+        if rng.chance(1, 4):
+            clk += rng.range(0, 3 * tick * NS)
+            ops.append("adv %d" % clk)  # advance() on the reset wheel: _lastAdvanceTime unset
+        if rng.chance(1, 2):
+            clk += rng.range(0, 4 * tick * NS)
+            ops.append("clk %d" % clk)
+        ops.append("start")
+        # new epoch: the same ids again, mostly with LATER deadlines than their namesakes of the old epoch, whose deadlines now come due
+        n_new = rng.range(1, 6)
+        for j in range(n_new):
+            dold = old[j] if j < len(old) and abs(old[j]) < 10 ** 9 else 0
+            ops.append("sched %d" % (max(dold, 0) + tick * rng.range(2, 3 * slots)))
+        ops.append("dump")
+        for _ in range(rng.range(1, 2 * slots + 2)):
+            clk += tick * NS + rng.choice([0, 0, 1, NS // 3])
+            ops.append("adv %d" % clk)
+        if rng.chance(1, 2):
+            ops.append("cancel %d" % rng.range(1, n_new))
+        ops.append("pending")
+    ops += ["pending", "dump"]
+    span_ticks = slots ** levels
+    for _ in range(3):
+        clk += tick * NS * rng.range(span_ticks, span_ticks + 2 * slots)
+        ops.append("adv %d" % clk)
+    ops += ["pending", "dump"]
+    return {"cat": "wheel-restart", "ops": ops, "geom": [tick, slots, levels], "idx": idx}
+
+
+def boundary_cases_r2():
+    """deterministic end-of-clock and restart cases (always run)"""
+    cs = []
+    room = (TP_MAX - BASE_NS) // NS
+    for (t, s, l) in [(10, 8, 2), (1, 4, 3), (1000, 256, 4)]:
+        ops = ["reset %d %d %d" % (t, s, l), "start", "vclock"]
+        for d in (2 ** 63 - 1, 2 ** 63 - 2, TP_MAX // NS + 1, TP_MAX // NS, TP_MAX // NS - 1, room + 1, room, room - 1, 300 * YEAR_MS, 292 * YEAR_MS + 1, 292 * YEAR_MS,
+                  292 * YEAR_MS - 1, -(2 ** 63 - 1), -room - 1, -room, -room + 1, -(BASE_NS // NS) - 1, -(BASE_NS // NS), -(BASE_NS // NS) + 1, 50 * t):
+            ops.append("sched %d" % d)
+        ops += ["dump", "resched 20 %d" % (2 ** 63 - 1), "resched 1 %d" % (3 * t)]
+        clk = 0
+        for i in range(1, 4 * s + 3):
+            clk += t * NS
+            ops.append("adv %d" % clk)
+        ops += ["pending", "dump", "drain 30000", "wreset", "start", "sched %d" % (2 ** 63 - 1), "adv %d" % (clk + t * NS), "adv %d" % (clk + 2 * t * NS), "pending", "dump",
+                "race %d" % (2 ** 63 - 1)]
+        cs.append({"cat": "wheel-endofclock", "geom": [t, s, l], "ops": ops})
+    # the clock itself near the end of its range: little room is left, moderate delays saturate
+    for b in (TP_MAX - 10 ** 16, TP_MAX - 5 * 10 ** 15):
+        rm = (TP_MAX - b) // NS
+        ops = ["reset 10 8 2", "base %d" % b, "start"] + ["sched %d" % d for d in (rm - 1, rm, rm + 1, 2 * rm, 30, -rm, -rm - 1, -2 * rm)] + ["dump"]
+        clk = 0
+        for i in range(1, 20):
+            clk += 10 * NS
+            ops.append("adv %d" % clk)
+        ops += ["pending", "dump", "stop"]
+        cs.append({"cat": "wheel-endofclock", "geom": [10, 8, 2], "ops": ops})
+    # restart: an old-epoch entry is pending at the stop; the same id in the new epoch has a later deadline
+    for stopop in ("stop", "drain 30000", "drain 0"):
+        ops = ["reset 10 8 2", "wreset", "start", "sched 30", "sched 500", "adv 10000000", "wreset", stopop, "pending", "sched 10", "wreset", "dump", "wreset", "sched 10",
+               "adv 15000000", "start", "sched 200", "sched 40", "dump", "mtsched 4 200 50", "sched 25", "dump"]
+        clk = 15000000
+        for i in range(30):
+            clk += 10 * NS
+            ops.append("adv %d" % clk)
+        ops += ["pending", "dump", "cancel 1", "cancel 2", "stop", "wreset", "start", "sched 0", "adv %d" % (clk + 10 * NS), "pending", "dump"]
+        cs.append({"cat": "wheel-restart", "geom": [10, 8, 2], "ops": ops})
+    return cs
+# ---- end of c08w block ------------------------------------------------------------------------------------------------------------
+
+
 # ------------------------------------------------------------------ wheel property monitor (implementation output only)
 def parse_fired(tok):
     return [] if tok in ("-", "") else [int(x) for x in tok.split(",")]
@@ -253,8 +467,9 @@ def monitor_wheel(c, impl):
     pending = set()
     gone = {}          # id -> how it left: fired | cancelled | drained | stopped
     accepting = False
-    ever_started = False
-    dead = False       # stop()/drain() happened
+    life = "created"   # created | running | stopped | reset  (TimingWheelState as the op list implies it)
+    base = BASE_NS     # virtual epoch of the harness clock (absolute now = base + clk)
+    epoch = 0          # number of successful reset() calls: ids restart at 1 in every epoch
     last_adv = None    # _lastAdvanceTime
     overdue = {}       # id -> ticks processed by advance() calls whose `now` was at or past the timer's deadline
     for op, ans in zip(c["ops"], impl):
@@ -263,7 +478,7 @@ def monitor_wheel(c, impl):
             bad.append("W0: the wheel crashes/throws: %s -> %s" % (op, ans))
             break
         if ans == "hang":
-            bad.append("W4: the call does not return (watchdog 2 s): %s (livelock under _wheelMutex)" % op)
+            bad.append("W4: the call does not return (watchdog: 3 s of CPU time or 60 s wall inside one call): %s (livelock under _wheelMutex)" % op)
             break
         if ans == "bad-op":
             continue
@@ -275,13 +490,47 @@ def monitor_wheel(c, impl):
             break
         if t[0] == "reset":
             clk = 0
+            base = BASE_NS
         elif t[0] == "clk":
             clk = int(t[1])
+        elif t[0] == "base":
+            base = int(t[1])
         elif t[0] == "start":
-            if not ever_started and not dead:
+            if life in ("created", "reset"):
                 accepting = True
                 last_adv = clk
-            ever_started = True
+                life = "running"
+        elif t[0] == "wreset":
+            if ans == "ok":
+                if life != "stopped":
+                    bad.append("W7: reset() went through on a wheel that is not STOPPED (%s)" % life)
+                if pending:
+                    bad.append("W1: %d timer(s) still pending when reset() is reached although stop()/drain() returned: %s" % (len(pending), sorted(pending)[:6]))
+                # a new epoch: ids restart at 1; nothing of the old epoch may be linked, fire, or be cancellable any more
+                epoch += 1
+                deadline, gone, overdue = {}, {}, {}
+                pending = set()
+                last_adv = None
+                life = "reset"
+            elif ans == "not-stopped":
+                if life == "stopped":
+                    bad.append("W7: the wheel is not STOPPED after stop()/drain() returned (reset() impossible)")
+            else:
+                bad.append("W0: malformed answer: %s -> %s" % (op, ans))
+        elif t[0] == "mtsched":
+            kv = dict(x.split("=") for x in ans.split() if "=" in x)
+            if not all(k in kv and kv[k].lstrip("-").isdigit() for k in ("acc", "dups", "pending_short", "cancelled")):
+                bad.append("W0: malformed answer: %s -> %s" % (op, ans))
+                break
+            want = int(t[1]) * int(t[2]) if accepting else 0
+            if int(kv["dups"]) != 0:
+                bad.append("W1: id issued twice: %s concurrent schedule() calls returned an id another call also returned (%s)" % (kv["dups"], op))
+            if int(kv["pending_short"]) != 0:
+                bad.append("W1: pendingCount() grew by %s less than the number of accepted schedule() calls: accepted timers share an id / were dropped (%s)" % (kv["pending_short"], op))
+            if int(kv["acc"]) != want:
+                bad.append("W7: %s of %d concurrent schedule() calls accepted on a wheel that is %saccepting" % (kv["acc"], int(t[1]) * int(t[2]), "" if accepting else "not "))
+            if int(kv["cancelled"]) + int(kv["dups"]) != int(kv["acc"]):
+                bad.append("W2: cancel() = false for %d timer(s) that were just scheduled and cannot have fired" % (int(kv["acc"]) - int(kv["dups"]) - int(kv["cancelled"])))
         elif t[0] == "sched":
             i = int(ans)
             if i != 0:
@@ -289,7 +538,7 @@ def monitor_wheel(c, impl):
                     bad.append("W7: schedule() on a wheel that is not accepting returned id %d (it can never fire): %s" % (i, op))
                 if i in deadline:
                     bad.append("W1: id %d issued twice" % i)
-                deadline[i] = clk + int(t[1]) * NS
+                deadline[i] = deadline_after(base + clk, int(t[1])) - base
                 pending.add(i)
             elif accepting:
                 bad.append("W7: schedule() refused on an accepting wheel: %s" % op)
@@ -308,7 +557,7 @@ def monitor_wheel(c, impl):
                 if i not in pending:
                     bad.append("W2: reschedule(%d) = true but the timer was not pending (%s)" % (i, gone.get(i, "never issued")))
                 pending.add(i)
-                deadline[i] = clk + int(t[2]) * NS
+                deadline[i] = deadline_after(base + clk, int(t[2])) - base
                 overdue.pop(i, None)
             elif i in pending:
                 bad.append("W2: reschedule(%d) = false although the timer is pending" % i)
@@ -347,20 +596,20 @@ def monitor_wheel(c, impl):
                 gone[i] = "drained"
             pending.clear()
             accepting = False
-            dead = True
+            life = "stopped"
         elif t[0] == "stop":
             for i in list(pending):
                 gone[i] = "stopped"
             pending.clear()
             accepting = False
-            dead = True
+            life = "stopped"
         elif t[0] == "race":
             kv = dict(x.split("=") for x in ans.split())
             for i in list(pending):
                 gone[i] = "stopped"
             pending.clear()
             accepting = False
-            dead = True
+            life = "stopped"
             if kv.get("id", "0") != "0" and kv.get("pending", "0") != "0":
                 bad.append("W7: schedule() racing stop() returned id %s and the entry is still linked after stop() returned (pending=%s): accepted by a stopped wheel, never fires"
                            % (kv["id"], kv["pending"]))
@@ -401,10 +650,26 @@ MS = 1000000
 
 def gen_svc_case(rng, idx):
     """ops for harness/c08_svc.cpp: the real TimerService with its loop thread parked in epoll_wait between `wake`s"""
-    if rng.chance(1, 8):
+    k = rng.below(100)
+    if k < 10:
         return gen_svc_sweep_case(rng, idx)
-    if rng.chance(1, 7):
+    if k < 20:
         return gen_svc_stop_case(rng, idx)
+    if k < 32:
+        return gen_svc_restart_case(rng, idx)
+    if k < 44:
+        return gen_svc_wakeup_case(rng, idx)
+    if k < 56:
+        return gen_svc_steady_case(rng, idx)
+    c = gen_svc_plain_case(rng, idx)
+    if rng.chance(1, 3):
+        # the kernel's rule instead of a forced pass: `tick` leaves epoll_wait only if the eventfd is readable or the timerfd expired
+        c["ops"] = [("tick" if o == "wake" and rng.chance(3, 4) else o) for o in c["ops"]]
+        c["cat"] = "svc-tick"
+    return c
+
+
+def gen_svc_plain_case(rng, idx):
     style = rng.below(7)     # 0-2 mixed, 3 heap stress (many timers, ties), 4 gates + concurrent cancel/schedule, 5 small limits, 6 drains
     if style == 5:
         lim = (rng.range(1, 4), rng.range(0, 2), rng.choice([50, 5, 86400000]))
@@ -430,6 +695,8 @@ def gen_svc_case(rng, idx):
                 blocked_possible = True
             elif j == 1 and issued:
                 kind = "x%d" % rng.range(1, issued + 1)
+            elif j == 2:
+                kind = "t"
             ops.append("at %d %s" % (base, kind))
             issued += 1
         elif k < 44:
@@ -441,6 +708,8 @@ def gen_svc_case(rng, idx):
                 blocked_possible = True
             elif j == 1 and issued:
                 kind = "x%d" % rng.range(1, issued + 1)
+            elif j == 2:
+                kind = "t"
             ops.append("per %d %s" % (iv, kind))
             issued += 1
         elif k < 60:
@@ -455,6 +724,13 @@ def gen_svc_case(rng, idx):
             ops.append("inflight")
         else:
             ops.append("wake")
+        if rng.chance(1, 40):
+            # scheduleAt on another thread, held between its lock-free test and its locked section while other calls go on
+            ops.append("rsched %d" % (clk + rng.choice([0, 1, 5, 30]) * MS))
+            for _ in range(rng.below(3)):
+                ops.append(rng.choice(["at %d n" % (clk + 2 * MS), "cancel %d" % rng.range(0, issued + 1), "wake", "drain 0", "drain 5", "dwait"]))
+            ops.append("rgo")
+            issued += 1
         if style == 6 and rng.chance(1, 5):
             # drain(ms) on a helper thread: gate, sweep, wait; it completes / times out / keeps waiting as the clock and the loop go on
             j = rng.below(10)
@@ -542,6 +818,10 @@ def gen_svc_stop_case(rng, idx):
     for _ in range(n_noise):
         ops.append(rng.choice(["at %d n" % (rng.range(1, 40) * MS), "at %d n" % (rng.range(5200, 9000) * MS), "at %d n" % (rng.range(100, 4000) * MS),
                                "per %d n" % (rng.choice([700, 1300, 2500]) * MS)]))
+    racer = rng.chance(1, 2)
+    if racer:
+        # a scheduleAt() on another thread has passed its lock-free `_accepting` test and is held before `_mutex`
+        ops.append("rsched %d" % (clk + rng.choice([1, 30, 6000, 90000000]) * MS))
     if pat == 0:
         # idle (or nearly idle) service
         if rng.chance(1, 2):
@@ -581,6 +861,8 @@ def gen_svc_stop_case(rng, idx):
         t1 = clk + MS
         ops += ["at %d g" % t1, "clk %d" % t1, "wake", "drain %d" % rng.choice([0, 50, 5000]), "stop", "swait", "release", "swait", "dwait"]
         clk = t1
+    if racer:
+        ops.append("rgo")        # the locked section re-tests `_accepting`: refused (stop() has cleared it, or published Stopped)
     # after stop() has returned: everything is refused, nothing runs
     for _ in range(rng.range(1, 5)):
         k = rng.below(6)
@@ -599,6 +881,172 @@ def gen_svc_stop_case(rng, idx):
             ops.append("stop")
     ops += ["release", "dwait", "swait", "inflight"]
     return {"cat": "svc-stop", "ops": ops, "idx": idx, "style": 8, "limits": [10000, 1000, 86400000], "kind": "svc"}
+
+
+def gen_svc_restart_case(rng, idx):
+    """stop() -> reset() -> start() on ONE service object (the ids restart at 1): what the old epoch leaves behind - the heap item of a
+    cancelled timer whose deadline has not passed, a live timer beyond stop()'s 5 s drain window, periodic entries - must not touch the
+    timers of the new epoch; reset()/start()/stop() in the wrong state are refused / no-ops"""
+    ops = ["reset 10000 1000 86400000"]
+    clk = 0
+    epochs = rng.range(1, 3)
+    for ep in range(epochs):
+        d_old = []
+        n = rng.range(1, 5)
+        ids = 0
+        for _ in range(n):
+            k = rng.below(6)
+            if k <= 1:
+                d = clk + rng.range(2, 400) * MS
+                ops += ["at %d n" % d, "cancel %d" % (ids + 1)]      # tombstone: the heap item stays until its deadline
+                ids += 1
+                d_old.append(d)
+            elif k == 2:
+                d = clk + rng.range(5200, 9000) * MS                  # beyond the drain window of stop(): swept, stays in the heap
+                ops.append("at %d n" % d)
+                ids += 1
+                d_old.append(d)
+            elif k == 3:
+                ops.append("per %d n" % (rng.choice([700, 1300, 2500, 6000]) * MS))
+                ids += 1
+            elif k == 4:
+                d = clk + rng.range(1, 40) * MS
+                ops.append("at %d %s" % (d, rng.choice(["n", "t"])))
+                ids += 1
+                if rng.chance(1, 2):
+                    clk = d + rng.choice([0, 1, MS])
+                    ops += ["clk %d" % clk, rng.choice(["wake", "tick"])]
+            else:
+                ops.append(rng.choice(["svcreset", "start", "wake", "tick", "inflight"]))     # reset() while Running is refused, start() is a no-op
+        if rng.chance(1, 5):
+            ops += ["stop", "svcreset", "swait", "wake", "swait"]     # reset() while stop() is still joining: refused (Draining)
+        else:
+            ops += ["stop", "swait", "wake", "swait"]
+        if rng.chance(1, 4):
+            ops.append(rng.choice(["start", "stop", "at %d n" % (clk + MS), "wake"]))    # Stopped: start refused, stop refused, schedule refused
+        ops.append("svcreset")
+        if rng.chance(1, 3):
+            ops.append(rng.choice(["svcreset", "stop", "at %d n" % (clk + MS), "cancel 1", "drain 0", "wake", "inflight"]))   # Reset: everything refused
+        ops.append("start")
+        # the new epoch: ids restart; deadlines LATER than what the old epoch left in the heap
+        base = max(d_old) if d_old else clk
+        m = rng.range(1, 4)
+        new_d = []
+        for j in range(m):
+            if rng.chance(1, 4):
+                ops.append("per %d %s" % (rng.choice([3, 50, 600]) * MS, "n"))
+            else:
+                d = base + rng.range(1, 900) * MS
+                ops.append("at %d n" % d)
+                new_d.append(d)
+        for d in sorted(set(d_old)):
+            if d > clk:
+                clk = d
+                ops += ["clk %d" % clk, rng.choice(["wake", "tick", "wake"])]    # an old deadline passes: nothing of the new epoch may fire
+        for d in sorted(new_d):
+            if d > clk and rng.chance(2, 3):
+                clk = d + rng.choice([0, 1])
+                ops += ["clk %d" % clk, rng.choice(["wake", "tick"])]
+        if rng.chance(1, 2):
+            ops.append("cancel %d" % rng.range(1, m + 1))
+    clk += 2 * MS
+    ops += ["clk %d" % clk, "tick", "inflight"]
+    return {"cat": "svc-restart", "ops": ops, "idx": idx, "style": 9, "limits": [10000, 1000, 86400000], "kind": "svc"}
+
+
+def gen_svc_wakeup_case(rng, idx):
+    """the wake-up plumbing under the kernel's rule (`tick`): a timer comes due while the loop thread is busy with a handler, so the top of
+    the loop programs the timerfd with the heap top ALREADY due (zero guard: 1 ns, never 0 = disarm); earlier deadlines scheduled while
+    the loop sleeps (poke); cancelled tops; and at the end the clock runs ahead and every wake-up the kernel owes is delivered"""
+    ops = ["reset 10000 1000 86400000"]
+    clk = 0
+    ids = 0
+    for _ in range(rng.range(1, 4)):
+        k = rng.below(5)
+        if k <= 1:
+            t1 = clk + rng.choice([0, 1, 2, 5]) * MS
+            t2 = t1 + rng.choice([0, 1, MS, 2 * MS])
+            ops += ["at %d g" % t1, "at %d %s" % (t2, rng.choice(["n", "n", "t"]))]
+            ids += 2
+            clk = max(clk, t1)
+            ops += ["clk %d" % clk, "tick"]                 # the gate handler blocks; timer 2 is not collected unless t2 <= t1
+            clk = max(clk, t2) + rng.choice([0, 1, MS])
+            ops += ["clk %d" % clk, "release"]              # back at the top of the loop with the heap top already due
+            clk += rng.choice([1, 1, 2, MS])
+            ops += ["clk %d" % clk, "tick", "tick"]
+        elif k == 2:
+            d = clk + rng.range(5, 50) * MS
+            ops += ["at %d n" % d, "tick"]                  # the poke wakes the loop, it arms for d and sleeps
+            e = clk + rng.range(1, 4) * MS
+            ops += ["at %d n" % e]                          # an earlier deadline: poked again
+            ids += 2
+            if rng.chance(1, 2):
+                ops.append("tick")
+            clk = e + rng.choice([0, 1])
+            ops += ["clk %d" % clk, "tick"]
+            clk = d
+            ops += ["clk %d" % clk, "tick", "tick"]
+        elif k == 3:
+            d = clk + rng.range(2, 9) * MS
+            ops += ["at %d n" % d, "at %d n" % (d + MS), "tick", "cancel %d" % (ids + 1), "tick"]
+            ids += 2
+            clk = d + MS
+            ops += ["clk %d" % clk, "tick"]
+        else:
+            iv = rng.choice([2, 3, 5]) * MS
+            ops += ["per %d n" % iv, "tick"]
+            ids += 1
+            for _ in range(rng.range(1, 4)):
+                clk += iv + rng.choice([0, 1, MS])
+                ops += ["clk %d" % clk, "tick"]
+            ops.append("cancel %d" % ids)
+    clk += rng.range(1, 50) * MS
+    ops += ["clk %d" % clk, "tick", "tick", "tick", "inflight"]
+    return {"cat": "svc-wakeup", "ops": ops, "idx": idx, "style": 10, "limits": [10000, 1000, 86400000], "kind": "svc"}
+
+
+def gen_svc_steady_case(rng, idx):
+    """SteadyTimer: arm / cancel / re-arm in every window - pending; collected but not started (its record waits in the loop's ready
+    list behind a gate handler: the FC08b window); started (the handler itself is a gate); after it ran; refused arm"""
+    lim = (rng.range(1, 3), 1000, 86400000) if rng.chance(1, 8) else (10000, 1000, 86400000)
+    ops = ["reset %d %d %d" % lim]
+    clk = 0
+    for _ in range(rng.range(1, 4)):
+        i = rng.below(3)
+        k = rng.below(7)
+        t1 = clk + rng.choice([1, 2, 5]) * MS
+        if k == 0:
+            ops += ["sat %d %d n" % (i, t1), "scancel %d" % i, "scancel %d" % i]                       # pending: true, then nothing armed
+            clk = t1
+            ops += ["clk %d" % clk, "wake"]
+        elif k <= 2:
+            ops += ["at %d g" % t1, "sat %d %d %s" % (i, t1 + rng.choice([0, 0, 1]), rng.choice(["n", "g"])), "clk %d" % (t1 + 1), "wake"]
+            clk = t1 + 1
+            ops += [rng.choice(["scancel %d" % i, "scancel %d" % i, "sat %d %d n" % (i, clk + 3 * MS)])]   # collected, not started
+            ops += ["release", "release"]
+            ops += ["scancel %d" % i]
+        elif k == 3:
+            ops += ["sat %d %d g" % (i, t1), "clk %d" % t1, "wake", "scancel %d" % i, "release", "scancel %d" % i]   # started: false, runs once
+            clk = t1
+        elif k == 4:
+            ops += ["sat %d %d n" % (i, t1), "clk %d" % t1, "tick", "scancel %d" % i]                  # already ran: false
+            clk = t1
+        elif k == 5:
+            ops += ["sat %d %d n" % (i, t1), "sat %d %d n" % (i, t1 + 2 * MS), "clk %d" % t1, "wake"]   # re-arm replaces the first wait
+            clk = t1 + 2 * MS
+            ops += ["clk %d" % clk, "wake", "scancel %d" % i]
+        else:
+            ops += ["at %d g" % t1, "clk %d" % t1, "wake", "drain %d" % rng.choice([0, 5]), "sat %d %d n" % (i, t1 + MS), "scancel %d" % i,
+                    "release", "dwait"]                                                                   # refused arm: nothing armed, cancel false
+            clk = t1 + 6 * MS
+            ops += ["clk %d" % clk, "dwait"]
+        if rng.chance(1, 3):
+            ops.append(rng.choice(["at %d n" % (clk + MS), "cancel %d" % rng.range(1, 4), "tick", "inflight"]))
+    for _ in range(4):
+        ops.append("release")
+    clk += 10 * MS
+    ops += ["clk %d" % clk, "wake", "release", "release", "dwait", "inflight"]
+    return {"cat": "svc-steady", "ops": ops, "idx": idx, "style": 11, "limits": list(lim), "kind": "svc"}
 
 
 def gen_svc_winddown(c, impl_so_far=None):
@@ -629,31 +1077,36 @@ def svc_boundary_cases():
 
 def monitor_svc(c, impl):
     """safety monitor on the implementation's own answers (never early / at most once / not after a successful cancel /
-    cancel=false => runs exactly once / nothing lost / nothing after stop() / a Stopped service refuses), knowing only the generated
-    ops.  A failure that falls under the recorded finding FC08a (a drain(ms>0) that sweeps and then times out has destroyed
-    schedules of a service that is Running again) is returned with the prefix `FC08a:`; the caller counts it under the finding if
-    that is listed in KNOWN_FINDINGS.txt and reports it as a violation otherwise."""
+    cancel=false => runs exactly once / nothing lost, no wake-up slept on / nothing after stop() / a Stopped service refuses / nothing
+    of an earlier epoch touches the timers issued after a restart), knowing only the generated ops.  A failure that falls under the
+    recorded finding FC08a (a drain(ms>0) that sweeps and then times out has destroyed schedules of a service that is Running again) is
+    returned with the prefix `FC08a:`; the caller counts it under the finding if that is listed in KNOWN_FINDINGS.txt and reports it
+    as a violation otherwise."""
     bad = []
     clk = 0
-    info = {}          # id -> dict(periodic, tp | (t0, iv), kind)
-    starts = {}        # id -> number of starts
-    cancelled_ok = {}  # id -> True once cancel answered true
-    cancel_false = set()
-    swept = set()      # one-shot ids a drain(ms>0) sweep of a user drain cancelled (tp beyond clock + ms at the sweep)
-    swept_per = set()  # periodic ids alive at such a sweep (their entries are marked: at most one more firing)
-    stop_swept = set() # ids swept (one-shot) or marked (periodic) by the drain(5000) inside stop(): stop() may cancel
+    E = {}             # bookkeeping of the CURRENT epoch of the service (ids restart at 1 after reset())
+
+    def new_epoch():
+        E.clear()
+        E.update(dict(info={}, starts={}, cancelled_ok={}, cancel_false=set(), swept=set(), swept_per=set(), stop_swept=set(), sched_idx={},
+                      last_collect_clk=None, last_collect_idx=None, lost_after_restore=False, dead=set()))
+    new_epoch()
     blocked = False
     life = "R"
     stop_returned = False
-    lost_after_restore = False
+    tok_of = {}        # SteadyTimer index -> service id of its armed wait (None: nothing armed)
+    racer_tp = None
+    last_pass_clk = 0  # clock at the last op after which the loop thread went (back) to sleep: it armed the timerfd then
+    busy_seen = False
 
     def on_events(evs, now):
         nonlocal blocked
+        info, starts, cancelled_ok = E["info"], E["starts"], E["cancelled_ok"]
         for e in evs:
             if e[0] == "s":
                 i = int(e[1:])
                 if i not in info:
-                    bad.append("S1: handler of unknown id %d starts" % i)
+                    bad.append("S1: handler of unknown id %d starts (not issued in this epoch of the service)" % i)
                     continue
                 starts[i] = starts.get(i, 0) + 1
                 d = info[i]
@@ -661,7 +1114,9 @@ def monitor_svc(c, impl):
                     bad.append("S4: handler of timer %d starts after stop() returned" % i)
                 if cancelled_ok.get(i):
                     bad.append("S3: handler of timer %d starts after cancel(%d) returned true" % (i, i))
-                if i in swept or (i in stop_swept and not d["periodic"]):
+                if i in E["dead"]:
+                    bad.append("S3: handler of SteadyTimer wait %d starts after the timer was re-armed (asyncWait cancels the previous wait)" % i)
+                if i in E["swept"] or (i in E["stop_swept"] and not d["periodic"]):
                     bad.append("S3: handler of timer %d starts after a drain() sweep had cancelled it" % i)
                 if d["periodic"]:
                     due = d["t0"] + starts[i] * d["iv"]
@@ -680,6 +1135,7 @@ def monitor_svc(c, impl):
                 note_cancel(int(j), r == "1")
 
     def note_cancel(i, ok):
+        info, starts, cancelled_ok = E["info"], E["starts"], E["cancelled_ok"]
         if ok:
             if i not in info:
                 bad.append("S3: cancel(%d) = true for an id that was never issued" % i)
@@ -689,27 +1145,52 @@ def monitor_svc(c, impl):
                 bad.append("S3: cancel(%d) = true after the one-shot handler already started" % i)
             cancelled_ok[i] = True
         elif i in info and not cancelled_ok.get(i):
-            cancel_false.add(i)
+            E["cancel_false"].add(i)
 
     def sweep(ms, into, into_per):
         horizon = clk + ms * MS
-        for i, d in info.items():
-            if cancelled_ok.get(i):
+        for i, d in E["info"].items():
+            if E["cancelled_ok"].get(i) or i in E["dead"]:
                 continue
             if d["periodic"]:
                 into_per.add(i)
-            elif starts.get(i, 0) == 0 and d["tp"] > horizon:
+            elif E["starts"].get(i, 0) == 0 and d["tp"] > horizon:
                 into.add(i)
 
-    last_collect_clk = None
-    last_collect_idx = None
-    sched_idx = {}
+    def close_epoch():
+        """end of an epoch (reset() or end of case; all gates were opened): cancel=false => ran exactly once; nothing silently lost"""
+        info, starts, cancelled_ok = E["info"], E["starts"], E["cancelled_ok"]
+        lost = [i for i in sorted(E["swept"]) if starts.get(i, 0) == 0 and not cancelled_ok.get(i)]
+        if E["lost_after_restore"] and (lost or [i for i in E["swept_per"] if not cancelled_ok.get(i)]):
+            bad.append("FC08a: drain(ms) swept %d one-shot timer(s) %s and marked %d periodic timer(s), timed out and put the service back to Running: "
+                       "they never fire and cancel() on them answers false" % (len(lost), lost[:5], len([i for i in E["swept_per"] if not cancelled_ok.get(i)])))
+        exempt = E["swept"] | E["stop_swept"] | E["dead"]
+        if not blocked:
+            for i in E["cancel_false"]:
+                if not info[i]["periodic"] and not cancelled_ok.get(i) and i not in exempt and starts.get(i, 0) != 1:
+                    bad.append("S3: cancel(%d) = false on a running service but the handler ran %d times (must be exactly once)" % (i, starts.get(i, 0)))
+            if E["last_collect_clk"] is not None and not busy_seen:
+                for i, d in info.items():
+                    if not d["periodic"] and not cancelled_ok.get(i) and i not in exempt and d["tp"] <= E["last_collect_clk"] and starts.get(i, 0) == 0 \
+                            and E["sched_idx"][i] < E["last_collect_idx"]:
+                        bad.append("S5: one-shot timer %d (time point %d) was due at the last pass of the loop (%d) and never started: silently lost" % (i, d["tp"], E["last_collect_clk"]))
+
+    def issue(i, t, k, rec):
+        if i != 0:
+            if stop_returned:
+                bad.append("S6: %s after stop() returned was accepted (id %d): it can never fire" % (t[0], i))
+            if i in E["info"]:
+                bad.append("S1: id %d issued twice" % i)
+            E["sched_idx"][i] = k
+            E["info"][i] = rec
+
     for k, (op, ans) in enumerate(zip(c["ops"], impl)):
         t = op.split()
         if ans.startswith("crash:") or ans.startswith("throw") or ans == "hang":
             bad.append("S0: the service crashes/throws/hangs: %s -> %s" % (op, ans))
             return bad
         if ans in ("bad-op", "busy", "idle"):
+            busy_seen = busy_seen or ans == "busy"
             continue
         if ans == "clock-not-interposed":
             bad.append("S0: the service does not read the virtual clock (harness interposition broken)")
@@ -720,58 +1201,86 @@ def monitor_svc(c, impl):
         acc = [x for x in ans.split() if x.startswith("acc=")]
         if m:
             life = m[0][5:]
-            if life == "S" and acc and acc[0] == "acc=1":
-                bad.append("S6: the service is Stopped and accepting (a later schedule is accepted and can never fire): %s -> %s" % (op, " ".join(ans.split()[-4:])))
-            if life == "R" and prev_life == "D" and (swept or swept_per) and not stop_returned:
-                lost_after_restore = True
+            if life in ("S", "Z") and acc and acc[0] == "acc=1":
+                bad.append("S6: the service is Stopped and accepting (a later schedule is accepted and can never fire): %s -> %s" % (op, " ".join(ans.split()[-6:])))
+            if life == "R" and prev_life == "D" and (E["swept"] or E["swept_per"]) and not stop_returned:
+                E["lost_after_restore"] = True
         if t[0] == "clk":
             clk = int(t[1])
-        elif t[0] in ("at", "per"):
+        elif t[0] == "at":
+            issue(int(head), t, k, {"periodic": False, "tp": int(t[1]), "kind": t[2][0]})
+        elif t[0] == "per":
+            issue(int(head), t, k, {"periodic": True, "t0": clk, "iv": int(t[1]), "kind": t[2][0]})
+        elif t[0] == "rsched":
+            if head == "r=parked":
+                racer_tp = int(t[1])
+            elif head.startswith("r=") and head[2:].isdigit() and int(head[2:]) != 0:
+                bad.append("S0: the racing scheduleAt was not held before its locked section: %s -> %s" % (op, head))
+        elif t[0] == "rgo":
+            if head.startswith("r=") and head[2:].isdigit() and racer_tp is not None:
+                issue(int(head[2:]), ["scheduleAt racing stop()/drain()"], k, {"periodic": False, "tp": racer_tp, "kind": "n"})
+                racer_tp = None
+        elif t[0] == "sat":
+            j = int(t[1])
+            old = tok_of.get(j)
+            if old is not None:
+                E["dead"].add(old)      # asyncWait() cancels the previous wait: if its handler has not started it never will
             i = int(head)
-            if i != 0:
-                if stop_returned:
-                    bad.append("S6: %s after stop() returned was accepted (id %d): it can never fire" % (t[0], i))
-                if i in info:
-                    bad.append("S1: id %d issued twice" % i)
-                sched_idx[i] = k
-                if t[0] == "at":
-                    info[i] = {"periodic": False, "tp": int(t[1]), "kind": t[2][0]}
+            issue(i, t, k, {"periodic": False, "tp": int(t[2]), "kind": t[3][0], "steady": j})
+            tok_of[j] = i if i != 0 else None
+        elif t[0] == "scancel":
+            j = int(t[1])
+            tok = tok_of.get(j)
+            if head == "1":
+                if tok is None:
+                    bad.append("S3: SteadyTimer::cancel() = true although nothing is armed")
                 else:
-                    info[i] = {"periodic": True, "t0": clk, "iv": int(t[1]), "kind": t[2][0]}
+                    note_cancel(tok, True)
+            elif tok is not None:
+                note_cancel(tok, False)   # false => the handler has started: it runs exactly once (checked at the end of the epoch)
+            tok_of[j] = None
         elif t[0] == "cancel":
             note_cancel(int(t[1]), head == "1")
-        elif t[0] in ("wake", "release"):
+        elif t[0] in ("wake", "release", "tick"):
             if head.startswith("ev="):
                 evs = head[3:].split(",") if head != "ev=-" else []
                 on_events(evs, clk)
                 # a pass of the loop collects after epoll_wait (`wake`); with _running == false it collects again in the exit branch
                 # once the handlers of the pass are done (`wake`, or the `release` that ends the last gate of the pass)
-                if t[0] == "wake" or ("run=0" in ans.split() and not blocked):
-                    last_collect_clk = clk
-                    last_collect_idx = k
+                if t[0] in ("wake", "tick") or ("run=0" in ans.split() and not blocked):
+                    E["last_collect_clk"] = clk
+                    E["last_collect_idx"] = k
+                if not blocked:
+                    last_pass_clk = clk
+            elif head == "sleep":
+                # the kernel's rule: neither the eventfd nor the timerfd is ready.  No live one-shot timer may be overdue then (the
+                # loop armed the timerfd for the heap top, or 1 ns ahead, when it went to sleep - at an earlier clock value)
+                if life in ("R", "D") and not blocked and clk > last_pass_clk:
+                    exempt = E["swept"] | E["stop_swept"] | E["dead"]
+                    for i, d in E["info"].items():
+                        if not d["periodic"] and not E["cancelled_ok"].get(i) and i not in exempt and E["starts"].get(i, 0) == 0 and d["tp"] <= clk - 1:
+                            bad.append("S5: lost wake-up: the loop thread sleeps in epoll_wait with the timerfd %s and no poke pending although one-shot timer %d "
+                                       "(time point %d) is overdue at %d: it never fires" % ([x for x in ans.split() if x.startswith("arm=")], i, d["tp"], clk))
+                            break
         elif t[0] == "drain" and head in ("d=wait", "d=ok", "d=timeout", "d=parked") and int(t[1]) > 0:
-            sweep(int(t[1]), swept, swept_per)
+            sweep(int(t[1]), E["swept"], E["swept_per"])
         elif t[0] == "stop" and head in ("s=drainwait", "s=join", "s=ok") and prev_life == "R":
-            sweep(5000, stop_swept, stop_swept)
+            sweep(5000, E["stop_swept"], E["stop_swept"])
+        elif t[0] == "svcreset":
+            if head == "r=ok":
+                if prev_life != "S":
+                    bad.append("S4: reset() succeeded on a service that is not Stopped (life=%s)" % prev_life)
+                close_epoch()
+                new_epoch()
+                tok_of.clear()
+        elif t[0] == "start":
+            if head == "st=ok" and prev_life == "Z":
+                stop_returned = False
+                blocked = False
+                last_pass_clk = clk
         if life == "S":
             stop_returned = True      # Stopped is published by stop() just before it returns; events of this answer came before
-    # the recorded finding: schedules destroyed by a drain that timed out, on a service that is Running again
-    lost = [i for i in sorted(swept) if starts.get(i, 0) == 0 and not cancelled_ok.get(i)]
-    if lost_after_restore and (lost or [i for i in swept_per if not cancelled_ok.get(i)]):
-        bad.append("FC08a: drain(ms) swept %d one-shot timer(s) %s and marked %d periodic timer(s), timed out and put the service back to Running: "
-                   "they never fire and cancel() on them answers false" % (len(lost), lost[:5], len([i for i in swept_per if not cancelled_ok.get(i)])))
-    exempt = swept | stop_swept
-    # end of case (all gates were opened): cancel=false => the one-shot handler ran exactly once (unless a sweep or stop() took it)
-    if not blocked:
-        for i in cancel_false:
-            if not info[i]["periodic"] and not cancelled_ok.get(i) and i not in exempt and starts.get(i, 0) != 1:
-                bad.append("S3: cancel(%d) = false on a running service but the handler ran %d times (must be exactly once)" % (i, starts.get(i, 0)))
-        # nothing silently lost: a one-shot timer that was due at the last pass of the loop and was not cancelled has started
-        if last_collect_clk is not None and "busy" not in impl:
-            for i, d in info.items():
-                if not d["periodic"] and not cancelled_ok.get(i) and i not in exempt and d["tp"] <= last_collect_clk and starts.get(i, 0) == 0 \
-                        and sched_idx[i] < last_collect_idx:
-                    bad.append("S5: one-shot timer %d (time point %d) was due at the last pass of the loop (%d) and never started: silently lost" % (i, d["tp"], last_collect_clk))
+    close_epoch()
     return bad
 
 
@@ -782,6 +1291,8 @@ def rt_scenarios(rng, scale):
     sc = []
     for _ in range(8):
         sc.append(("svc", rng.below(10 ** 6), 300))
+    for _ in range(3):
+        sc.append(("wakeup", rng.below(10 ** 6), 350))
     for _ in range(4):
         sc.append(("svcdrain", rng.below(10 ** 6), 250))
     for _ in range(6):
@@ -851,7 +1362,7 @@ def monitor_rt(kind, text):
             margin = 5000000 if sc["per"] else 0
             late = [ts for ts, te in runs if ts > c["tret"] + margin]
             if late:
-                bad.append("RT3: handler of timer %d starts %d ns after cancel(%d) returned true" % (i, late[0] - c["tret"], i))
+                bad.append("RT3: handler of %stimer %d starts %d ns after cancel(%d) returned true" % ("periodic " if sc["per"] else "", i, late[0] - c["tret"], i))
     for x in stop + [d for d in drains if d["ok"]]:
         for i, runs in H.items():
             for ts, te in runs:
@@ -866,14 +1377,26 @@ def monitor_rt(kind, text):
                 bad.append("RT5: schedule() called after stop() returned was accepted (id %d): it can never fire" % i)
         stats["refused_after_stop"] = sum(1 for r in refused if r["tcall"] > t)
         # nothing silently lost while the service ran: generous slack (a watchdog, not a latency claim)
-        slack = (800 if kind == "wheel" else 400) * NS
+        # (effective since round 3: one-shot delays are <= 40 ms (service) / 120 ms (wheel) and every scenario ends with a tail longer than
+        # delay + slack; a failure of this class is re-run alone before it is reported, see run())
+        slack = (250 if kind == "wheel" else 120) * NS
         horizon = min([stop[0]["tcall"]] + [d["tcall"] for d in drains])
         for i, sc in sched.items():
-            if sc["per"] or i in H:
+            if sc["per"]:
                 continue
             if any(c["ok"] for c in cancels.get(i, [])) or any(r["ok"] for r in resch.get(i, [])):
                 continue
             if sc["tret"] + sc["delay"] + slack < horizon and kind != "f23":
+                stats["rt6_checked"] = stats.get("rt6_checked", 0) + 1
+                if i in H:
+                    # `wakeup` scenarios (two timers, nobody poking, no load): a timer that started only `slack` after its deadline was slept
+                    # on - it fired because stop() poked the loop at the end: the wake-up for it was lost.  (Not in the other scenarios: their
+                    # periodic handlers deliberately overload the single loop thread, and lateness is no C08 clause; not for the wheel: a
+                    # timer filed on a higher level can be late by design.)
+                    if kind == "wakeup" and min(ts for ts, te in H[i]) > sc["tret"] + sc["delay"] + slack:
+                        bad.append("RT6: one-shot timer %d (delay %d ns) started %d ns after its deadline: the loop thread slept on a due timer until something else woke it"
+                                   % (i, sc["delay"], min(ts for ts, te in H[i]) - sc["tret"] - sc["delay"]))
+                    continue
                 bad.append("RT6: one-shot timer %d (delay %d ns, scheduled at %d) never fired although the service ran until %d" % (i, sc["delay"], sc["tret"], horizon))
     else:
         bad.append("RT0: no stop event in the history")
@@ -937,7 +1460,9 @@ def run(ctx: Ctx):
     if ok_build:
         ctx.audit(MODULES, OBLIGATIONS)
         if not quick:
-            ctx.leanchecker(MODULES + ["IoraModel.Lemmas.TimingWheel", "IoraModel.Model.TimingWheel", "IoraModel.Lemmas.TimerService", "IoraModel.Lemmas.TimerHeap", "IoraModel.Lemmas.TimerDrain", "IoraModel.Model.TimerService"])
+            ctx.leanchecker(MODULES + ["IoraModel.Lemmas.TimingWheel", "IoraModel.Model.TimingWheel", "IoraModel.Lemmas.TimerService", "IoraModel.Lemmas.TimerHeap", "IoraModel.Lemmas.TimerDrain", "IoraModel.Model.TimerService",
+                                       "IoraModel.Model.TimerSys", "IoraModel.Lemmas.TimerSys", "IoraModel.Model.SteadyTimer", "IoraModel.Lemmas.SteadyTimer",
+                                       "IoraModel.Lemmas.TimingWheelSat", "IoraModel.Lemmas.TimingWheelRestart"])
     else:
         ctx.cov["obligations"] = len(OBLIGATIONS)
     # the three harnesses are independent translation units: compile them side by side
@@ -957,8 +1482,13 @@ def run(ctx: Ctx):
     cut = {}
     if hb and have_model:
         r = rng.fork("wheel")
-        first = load_corpus("wheel") + boundary_cases()
-        cases = first + [gen_wheel_case(r, i) for i in range(3000 * scale)]
+        kvg = kv_default_geometry()
+        if kvg and kvg not in GEOMETRIES:
+            GEOMETRIES.append(kvg)
+        ctx.extra["kv_default_wheel_geometry"] = {"from_gen": kvg, "in_lockstep_geometries": kvg in GEOMETRIES}
+        first = load_corpus("wheel") + boundary_cases() + boundary_cases_r2()
+        r2 = rng.fork("wheel-restart")
+        cases = first + [gen_wheel_case(r, i) for i in range(3000 * scale)] + [gen_wheel_restart_case(r2, i) for i in range(300 * scale)]
         tot = {"fired": 0, "cancel_ok": 0, "resched_ok": 0}
         cut["wheel"] = run_phase(ctx, "wheel", hb, cases, len(first), 600, monitor_wheel, "wheel lockstep (harness/c08_wheel.cpp vs Model/TimingWheel.lean)",
                                  dist, rng, lambda c, impl: wheel_hyp_stats(c, impl), tot, lambda st: st["fired"] > 0)
@@ -967,10 +1497,15 @@ def run(ctx: Ctx):
         r = rng.fork("svc")
         first = load_corpus("svc") + svc_boundary_cases()
         cases = first + [gen_svc_case(r, i) for i in range(1500 * scale)]
-        tot = {"starts": 0, "cancel_ok": 0, "gate_blocks": 0, "drains": 0, "drain_timeouts": 0}
+        tot = {"starts": 0, "cancel_ok": 0, "gate_blocks": 0, "drains": 0, "drain_timeouts": 0, "tick_sleeps": 0, "tick_wakes_by_poke": 0, "tick_wakes_by_timerfd": 0,
+               "armed_for_heap_top": 0, "armed_by_zero_guard": 0, "restarts": 0, "reset_refused": 0, "old_heap_items_at_restart": 0, "racer_parked": 0,
+               "racer_refused_under_lock": 0, "racer_accepted": 0, "steady_arms": 0, "steady_arms_refused": 0, "steady_cancel_true": 0,
+               "steady_cancel_true_after_collect": 0, "steady_cancel_false": 0, "throwing_handlers": 0, "stops_completed": 0}
         cut["svc"] = run_phase(ctx, "tsvc", hs, cases, len(first), 400, monitor_svc, "service lockstep (harness/c08_svc.cpp vs Model/TimerService.lean)",
                                dist, rng, svc_stats, tot, lambda st: st["starts"] > 0)
         ctx.extra["svc_totals"] = tot
+        for kk, vv in tot.items():
+            dist["svc-branch:" + kk] = vv
     if hs and have_model:
         # recorded finding FC08a: its witness must still reproduce on the real code AND be what the model (C08_S3b_refuted) predicts
         wit = [c for c in load_corpus("svc") if c.get("finding") == "FC08a"]
@@ -998,7 +1533,7 @@ def run(ctx: Ctx):
         ctx.extra["rt_skipped"] = "deterministic phases already reported violations with failing inputs"
         hr = None
     if hr:
-        tot = {"scheduled": 0, "handlers": 0, "cancel_ok": 0, "refused_after_stop": 0}
+        tot = {"scheduled": 0, "handlers": 0, "cancel_ok": 0, "refused_after_stop": 0, "rt6_checked": 0}
         t_rt = __import__("time").time()
         rr = rng.fork("rt")
         batches = [[("f23", rr.below(10 ** 6), 0)] + rt_scenarios(rr, 1)] + [rt_scenarios(rr, 1) for _ in range(0 if quick else 3)]
@@ -1015,6 +1550,18 @@ def run(ctx: Ctx):
                     tot[k] += st.get(k, 0)
                 ctx.count_case("rt %s %d" % (x[0], x[1]), nontrivial=st.get("handlers", 0) > 0)
                 ctx.cov["traces_validated_against_impl"] += 1
+                if fails and all(f.startswith("RT6") or (f.startswith("RT3") and "periodic" in f) for f in fails):
+                    # the two classes with a real-time tolerance (RT6: a slack; RT3 on a PERIODIC timer: 5 ms between guard and body):
+                    # on a loaded machine the batch of sanitizer-instrumented scenarios can exceed them; the scenario is re-run ALONE
+                    # and reported only if the same class fails again
+                    out1, rc1, err1 = ctx.run_lines([hr], ["%s %d %d" % x], timeout=90)
+                    fails1, _ = monitor_rt(x[0], out1[0].partition(" | ")[2] if out1 else "")
+                    again = [f for f in fails1 if f[:3] in {g[:3] for g in fails}]
+                    ctx.extra.setdefault("rt_rerun_alone", []).append({"scenario": "%s %d %d" % x, "first": fails[0][:160], "again": bool(again)})
+                    if again:
+                        line, text, fails = out1[0], out1[0].partition(" | ")[2], again
+                    else:
+                        fails = []
                 if fails:
                     ctx.violation("property", fails[0], {"scenario": "%s %d %d" % x, "failures": fails[:6], "history": text[:20000],
                                                          "how": "echo '%s %d %d' | <harness c08_rt>  (real time: re-run to re-validate)" % x}, found_input=True)
@@ -1042,38 +1589,85 @@ def run(ctx: Ctx):
         "S3b full clause for one-shot timers: REFUTED (C08_S3b_refuted, finding FC08a); proved without drain(ms>0) sweeps (C08_S3b_partial); for periodic timers the clause `will run exactly once` has no meaning and is not stated",
         "termination of collectDueLocked's loop for positive periodic intervals (S5b is conditional on the loop leaving by break/empty heap; the lockstep driver never ran out of fuel)",
         "real-time behaviour of timerfd/epoll/condition variables (measured by the real-time monitors, not proved)",
-        "TimingWheel::reset()/restart, TimerService::reset()/start() after stop, SteadyTimer, TimerServicePool (delegates to per-service calls), a second concurrent stop()",
+        "wheel restart: W2b (cancelled never fires) and W7b (stopped forever) are stated for continuations without reset() - after a reset() the id can be issued again and the wheel accepts again, WR1_ids_restart_witness; W7c (schedule racing stop) is not repeated for schedule racing reset() (reset() is only legal on a STOPPED wheel, where schedule is refused before it touches anything)",
+        "S3p: the periodic clause at instruction granularity is REFUTED (C08_S3p_refuted: guard load and handler call are two instructions); proved with both as one step (C08_S3p_partial = S3a); the window cannot be replayed on the real code without a hook between the load and fn()",
+        "service liveness: WK1/WK2 say that epoll_wait RETURNS whenever a record is due (eventfd readable or timerfd expired) once every owed poke() has been written; that the kernel then schedules the loop thread, and that a client thread eventually writes the poke() it owes, is assumed (fairness)",
+        "SteadyTimer: ST2 leaves the disjunct `already Canceled` (a token whose arm an earlier cancel() had won cannot exist, because cancel() resets the token; that invariant needs injectivity of tokens and is not proved); the destructor (= cancel()) and a SteadyTimer used across a restart of its service (its stale token aliases an id of the new epoch: cancel() then cancels an unrelated timer - observation) are not modelled",
+        "restart: reset() while a drain() call of the old epoch is still between its sections (dpc != idle) is excluded by the guard of the model's `reset` step (the old drainer's sweep would hit the new epoch: same class as FC08a); TimerServicePool (delegates to per-service calls), a second concurrent stop(), the system-error exits of runLoop (throwOnSystemError), drain()'s `budget <= 0` branch",
     ]
     ctx.extra["observations"] = [
+        "restart aliasing (not a C08 clause as stated): reset() restarts _nextId at 0, so an id (or a SteadyTimer token) kept from before the restart names an unrelated timer of the new epoch: cancel(old id) answers true and cancels it",
+        "scheduleAfter(d)/schedulePeriodic(d) with d > TimePoint::max() - now overflow `Clock::now() + d` and again `tp - now` in isValidTimeout (formally UB); the two wraps cancel and the request is REFUSED (id 0): nothing fires early, nothing is lost; hardening proposal: test d > maxTimeout before the addition",
+        "runLoop leaves on a timerfd_settime/epoll_wait error when throwOnSystemError is set (not the default) while the service stays Running and accepting: later schedules are accepted and never fire; the error handler is called, so this is reported, not silent; not modelled",
         "F42 (not a C08 clause): schedulePeriodic(interval <= 0) makes collectDueLocked loop forever under _mutex (the re-armed record is due again at once); the model's collectLoop runs out of fuel in the same way",
         "wheel lateness (not a C08 clause): a timer whose delay is >= one level-0 revolution is filed relative to the level's currentTick and can fire up to one lower-level revolution late; ticks that arrive 1.x ticks late lose the fraction (the wheel lags)",
     ]
     ctx.assumptions += [
-        "wheel: 64-bit tick counters and nanosecond arithmetic do not wrap (now + delay < 2^63 ns); steady_clock values are whatever the op list says (no monotonicity assumed by the theorems)",
+        "wheel: 64-bit tick counters do not wrap; steady_clock values are 0 <= now <= 2^63-1 ns (W8a needs nothing else: the deadline saturates, FC08c) and otherwise whatever the op list says (no monotonicity assumed by the theorems)",
         "wheel lockstep: advance() is issued by the op list under an interposed CLOCK_MONOTONIC (the real start() runs, its tick thread is joined at once); the tick thread's own timing is exercised only in the real-time part",
-        "service lockstep: the real loop thread is single-stepped by an interposed epoll_wait; timerfd/eventfd wake-ups are replaced by the op `wake`; drain(ms) runs on a helper thread whose timed wait is interposed and which re-evaluates predicate and (virtual) deadline after every op (a forced spurious wake-up), so completion / time-out / restore happen at op boundaries",
-        "service model: the atomic steps are the `_mutex` sections (+ handler start/end); stop() is called by one thread at a time; the periodic cancel guard is checked atomically with the handler start",
-        "real-time part: safety monitors over measured steady-clock timestamps (call/return of schedule/cancel/stop, handler start/end), at most 19 scenarios at a time; tolerances: none for one-shot timers of the service, one tick for the wheel (its contract), 5 ms between cancel() = true and the start of a PERIODIC handler body (the guard check precedes the body); RT6 (nothing lost) is a watchdog with 400/800 ms slack; thorough tier: the same scenarios under ThreadSanitizer",
+        "service lockstep: the real loop thread is single-stepped by an interposed epoll_wait; `wake` forces a pass, `tick` lets the loop leave epoll_wait only if the kernel would (the REAL eventfd is readable - asked by poll() - or the expiry the service programmed with the real timerfd_settime, recorded in virtual time, has passed), and the state line of every op carries the programmed expiry and the eventfd state, compared with the model's `armed`/`poked`; stop() -> reset() -> start() run on the one service object (new fds, new loop thread); a racer thread is held by the mutex interposer between scheduleAt's lock-free test and its locked section; SteadyTimer objects are the real class; drain(ms) runs on a helper thread whose timed wait is interposed and which re-evaluates predicate and (virtual) deadline after every op (a forced spurious wake-up), so completion / time-out / restore happen at op boundaries",
+        "service model: the atomic steps are the `_mutex` sections (+ handler start/end); stop() is called by one thread at a time; the periodic cancel guard is checked atomically with the handler start (C08_S3p_refuted records what that hides); second layer: a client's poke() is a separate step after its locked section (`owed`), epoll_wait returns exactly when the eventfd is readable or the timerfd expired, or spuriously; reset() requires that no drain() call of the old epoch is still in progress",
+        "real-time part: safety monitors over measured steady-clock timestamps (call/return of schedule/cancel/stop, handler start/end), at most 19 scenarios at a time; tolerances: none for one-shot timers of the service, one tick for the wheel (its contract), 5 ms between cancel() = true and the start of a PERIODIC handler body (the guard check precedes the body); RT6 (nothing lost) is a watchdog with 120 ms (service) / 250 ms (wheel) slack over one-shot delays <= 40 / 120 ms, with a quiet tail of 160 ms in the `svc` scenarios and three `wakeup` scenarios (real epoll/timerfd, nobody poking: review mutant A); an RT6 or periodic-RT3 failure is re-run alone and reported only if it fails again; thorough tier: the same scenarios under ThreadSanitizer",
     ]
     return ctx.finish(level="proof", rule="a case = one op list from `reset` (wheel or single-stepped service) or one real-time scenario; distinct = distinct op lists / scenario seeds; non-trivial = at least one timer fired / handler started")
 
 
 def svc_stats(c, impl):
+    """branch / kind counters of one case, MEASURED from the implementation's answers (they go into input_distribution)"""
     st = {"starts": 0, "cancel_ok": 0, "gate_blocks": 0}
+
+    def inc(k, n=1):
+        st[k] = st.get(k, 0) + n
+    kinds = {}
+    clk = 0
+    prev = ""
     for op, ans in zip(c["ops"], impl):
+        t = op.split()
         head = ans.split()[0] if ans else ""
+        f = dict(x.split("=", 1) for x in ans.split()[1:] if "=" in x)
+        if t[0] == "clk":
+            clk = int(t[1])
         if head.startswith("ev=") and head != "ev=-":
             evs = head[3:].split(",")
             st["starts"] += sum(1 for e in evs if e[0] == "s")
             st["cancel_ok"] += sum(1 for e in evs if e[0] == "c" and e.endswith("=1"))
+            inc("throwing_handlers", sum(1 for e in evs if e[0] == "s" and kinds.get(e[1:]) == "t"))
             if evs[-1][0] == "s":
                 st["gate_blocks"] += 1
+        if t[0] in ("at", "per", "sat") and head.isdigit() and head != "0":
+            kinds[head] = t[-1][0]
+        if t[0] == "tick":
+            if head == "sleep":
+                inc("tick_sleeps")
+            elif head.startswith("ev="):
+                inc("tick_wakes_by_poke" if " poke=1" in prev else "tick_wakes_by_timerfd")
+        if t[0] in ("wake", "tick", "release", "start") and f.get("arm", "-") != "-" and f.get("heap", "-") != "-":
+            top = int(f["heap"].split(",")[0].split(":")[0])
+            inc("armed_for_heap_top" if int(f["arm"]) == top else "armed_by_zero_guard" if int(f["arm"]) == clk + 1 else "armed_other")
         if op.startswith("cancel") and head == "1":
             st["cancel_ok"] += 1
         if op.startswith("drain") and head in ("d=wait", "d=ok"):
-            st["drains"] = st.get("drains", 0) + 1
+            inc("drains")
         if op == "dwait" and head == "d=timeout":
-            st["drain_timeouts"] = st.get("drain_timeouts", 0) + 1
+            inc("drain_timeouts")
+        if t[0] == "svcreset":
+            inc("restarts" if head == "r=ok" else "reset_refused")
+            if head == "r=ok" and "heap=-" not in prev:
+                inc("old_heap_items_at_restart")
+        if t[0] == "rsched" and head == "r=parked":
+            inc("racer_parked")
+        if t[0] == "rgo" and head.startswith("r=") and head[2:].isdigit():
+            inc("racer_refused_under_lock" if head == "r=0" else "racer_accepted")
+        if t[0] == "sat" and head.isdigit():
+            inc("steady_arms" if head != "0" else "steady_arms_refused")
+        if t[0] == "scancel":
+            inc("steady_cancel_true" if head == "1" else "steady_cancel_false")
+            # cancel() = true although the service-level record was already collected (not in rec= before the call): the FC08b window
+            if head == "1" and "exec=0" not in prev:
+                inc("steady_cancel_true_after_collect")
+        if t[0] in ("swait", "wake", "release") and head in ("s=ok",) or (" life=S" in ans and " life=S" not in prev):
+            inc("stops_completed") if " life=S" in ans and " life=S" not in prev else None
+        prev = ans
     return st
 
 
